@@ -87,6 +87,8 @@ def cases(draw, name, tier):
         for s in case["srcs"]:
             s["fl"] = draw(st.sampled_from(["agen", "agen", "list", "iter", "seq", "reiter", "areiter", "aproxy", "sgen"]))
             s["falsy"] = draw(st.integers(0, 4)) == 0  # (class-based flavours only: the object is falsy)
+            # (class-based flavours only) value equality, or __eq__ without __hash__ as for a plain dataclass
+            s["eqsrc"] = draw(st.sampled_from([False, False, False, False, True, "unhashable"]))
         if TOOLS[name].outer:
             # ... and so may the iterable OF iterables be (an inbox object whose len() is its current backlog)
             case["params"]["outer"]["fl"] = draw(st.sampled_from(["agen", "agen", "aclass", "list", "iter", "seq", "reiter",
